@@ -7,6 +7,7 @@ mod mon_adv;
 mod mon_alias;
 mod mon_ctor;
 mod mon_law;
+mod mon_multi;
 mod mon_pair;
 mod mon_pure;
 mod mon_serde;
@@ -50,8 +51,11 @@ fn main() {
         "c07" => mon_pair::run(&job),
         "c14" => mon_pure::run(&job),
         "law" => mon_law::run(&job),
+        "c11" => mon_multi::run_c11(&job),
+        "c12" => mon_multi::run_c12(&job),
         "pair32" => mon_law::pair32(&job),
         "zigdump" => mon_law::zigdump(),
+        "zigprobe" => mon_law::zigprobe(&job),
         "c15" => mon_serde::run(&job),
         "c08" => mon_alias::run(&job),
         "sweepdump" => mon_single::sweepdump(&job),
